@@ -1,17 +1,20 @@
 #!/bin/sh
-# evaluate every seed under /tmp/wt (3 at a time), keep each under /verif/seeded/<id>_<k>/ with meta.json
+# usage: tools/seedall.sh <base dir> <seed dir name>   e.g.  tools/seedall.sh /tmp/wt2 seed3
+# evaluates every <base>/Cxx/<seed> (3 at a time), keeps each under /verif/seeded/Cxx_<seed>/ with meta.json
 cd /verif
-ls -d /tmp/wt/C*/seed[12] | xargs -P 3 -I{} sh -c '
+BASE=${1:-/tmp/wt}; NAME=${2:-seed1}
+mkdir -p build/seeds
+ls -d $BASE/C*/$NAME 2>/dev/null | xargs -P 3 -I{} sh -c '
 d={}; id=$(basename $(dirname $d)); k=$(basename $d)
 [ -f "$d/patch.diff" ] && [ -f "$d/demo.py" ] || exit 0
 tools/seedtest.py $id $d --keep-as ${id}_$k > build/seeds/${id}_$k.json 2>build/seeds/${id}_$k.err'
-/venv/bin/python - <<'PY'
-import json,glob
+/venv/bin/python - "$NAME" <<'PY'
+import json,glob,sys
 ok=0; n=0
-for f in sorted(glob.glob("/verif/build/seeds/*.json")):
+for f in sorted(glob.glob("/verif/build/seeds/*_%s.json" % sys.argv[1])):
     try:
         r=json.load(open(f)); c=r["checks"][r["property"]]; n+=1; ok+=r["caught_by_own_check"]
-        print(f.split("/")[-1][:-5], "valid" if r["valid_seed"] else "INVALID", "CAUGHT" if r["caught_by_own_check"] else "MISSED rc=%s"%c["rc"], "|", c["first"][:110])
+        print(f.split("/")[-1][:-5], "valid" if r["valid_seed"] else "INVALID(t=%s d0=%s d1=%s)"%(r.get("tests_passed"),r.get("demo_without_patch_rc"),r.get("demo_with_patch_rc")), "CAUGHT" if r["caught_by_own_check"] else "MISSED rc=%s"%c["rc"], "|", c["first"][:110])
     except Exception as e:
         print(f, "ERROR", e)
 print("caught %d of %d"%(ok,n))
